@@ -111,6 +111,27 @@ D = {
                "cleanup(isolates=False, singletons=False) leaves a node isolated (an effect the call promises not to leave)"),
     "C05-m4": ("DiHypergraph.remove_node(strong=True) merged loop with if/elif",
                "strong removal next to a node that is in both head and tail of the edge"),
+    # round 4
+    "C01-m3": ("Hypergraph.double_edge_swap compares only the two edge sizes in its size/degree guard",
+               "the same node passed as n_id1 and n_id2, member of both (different) edges: the swap is accepted, an edge keeps listing the node while the node's memberships drop it"),
+    "C01-m4": ("Hypergraph.remove_edges_from becomes two passes (detach all memberships first, delete the edges afterwards)",
+               "a call that raises part-way (missing id after a valid one, or the same id twice): detached edges stay in the edge table with all their members"),
+    "C03-m5": ("SimplicialComplex.add_simplices_from (dict format) tests the collected faces against a set of member sets built once before the loop",
+               "two overlapping simplices in one dict-format call whose shared face is met in different node order ((2,3) and (3,2)): two ids carry the same node set"),
+    "C05-m5": ("Hypergraph.merge_duplicate_edges no longer sorts the duplicate ids for rename='first' / 'tuple'",
+               "duplicate edges whose explicit ids were inserted out of increasing order (7 then 3): the merged edge keeps 7 / the tuple is (7, 3)"),
+    "C05-m6": ("DiHypergraph.set_edge_attributes (dict-of-dicts) hoists the per-entry try/except IDNotFound around the whole loop",
+               "an unknown edge id listed before known ones: the loop stops at the unknown id, the later edges never receive their attributes"),
+    "C06-m5": ("IDView.neighbors (s > 1) gathers candidates only through bipartite ids that themselves have at least s neighbours",
+               "s >= 3 and two ids whose shared elements all have fewer than s neighbours: neighbours are missing"),
+    "C06-m6": ("MultiIDStat._val memoises the table of statistic values on first evaluation",
+               "a multi-stat object read, the network mutated, the same object read again: stale and mutually inconsistent outputs"),
+    "C19-m3": ("convert_labels_to_integers records the old label inside add_nodes_from as {label_attribute: n, **old_attrs}",
+               "a node that already carries a 'label' attribute (relabelling twice, or cleanup after a relabelling): the recorded old label is stale"),
+    "C19-m4": ("Hypergraph.__lshift__ no longer adds the right operand's nodes explicitly",
+               "a right operand with an isolated node absent from the left operand: the node set of H1 << H2 is not the union"),
+    "C14-m5": ("", ""),
+    "C14-m6": ("", ""),
 }
 
 for name in sorted(os.listdir(ROOT)):
